@@ -192,6 +192,10 @@ if ONE_WAY and (bool(obs['eq_ab']) != bool(obs['eq_ba']) or bool(obs['lt_ab']) !
                 or (bool(obs['lt_ab']) + bool(obs['eq_ab']) + bool(obs['gt_ab'])) != 1):
     print('REPRODUCED: == / < / > are not coherent between the two operand orders'); sys.exit(1)
 tie = abs(X - Y) <= 1e-7 * (abs(X) + abs(Y) + (1 if AFF else 0))
+if U is V:
+    # one and the same unit: no conversion, no rounding -- Python compares int, float and Decimal exactly
+    from fractions import Fraction
+    X, Y, tie = Fraction(x), Fraction(y), False
 if tie and not (X == Y and U is V):
     print('tie zone: nothing required'); sys.exit(0)
 lt, eq, gt = X < Y, X == Y, X > Y
@@ -246,7 +250,9 @@ sys.exit(0)
             acc.prove(case, p, goal, f"{cfg}#p{i}:{g}", key, f"C12:quantity:{uc}|{vc}:{g}",
                       f"{g} fails for {cfg}", replay(g),
                       shape_extra=far if g.startswith("physical-order") else (),
-                      soft_fallback=g.startswith("physical-order"))
+                      soft_fallback=g.startswith("physical-order"),
+                      # float against Decimal: the rounding model does not know that a double rounds to itself
+                      always_soft=(set(kinds.values()) == {"float", "dec"}))
         # hash: on a path where a == b holds, hashes must agree; with different unit objects
         # hash((x, U)) != hash((y, V)) unless by accident -> ask the solver for a witness
         hgoal = z3.Implies(o["eq_ab"], z3.BoolVal(U is V))
@@ -271,7 +277,9 @@ sys.exit(0)
         if exact_same:
             # same unit: a == b forces x == y, and Python hashes equal numbers equally
             acc.prove(case, p, z3.Implies(o["eq_ab"], x == y), f"{cfg}#p{i}:hash", key, sig,
-                      "a == b with different magnitudes in one unit", hreplay)
+                      "a == b with different magnitudes in one unit", hreplay,
+                      shape_extra=[x >= -4, x <= 4, y >= -4, y <= 4],
+                      always_soft=(set(kinds.values()) == {"float", "dec"}))
             # ... which settles the contract only if __hash__ hashes the number: witnesses of
             # this path's a == b (generic, integral, zero) go through the real hash() in every
             # numeric type and representation of the same value (main: hash_witnesses)
@@ -606,7 +614,12 @@ def worker(task: Tuple) -> Dict[str, Any]:
     with symnum.Shims():
         kind = task[0]
         if kind == "quantity":
-            quantity_task(acc, *task[1:])
+            mixed = set(task[3].values()) == {"float", "dec"}
+            symnum.ROUND_FLOAT_OF_DECIMAL[0] = mixed
+            try:
+                quantity_task(acc, *task[1:])
+            finally:
+                symnum.ROUND_FLOAT_OF_DECIMAL[0] = False
         elif kind == "measurement":
             measurement_task(acc, *task[1:])
         elif kind == "level":
@@ -660,6 +673,11 @@ def tasks_for(tier: str) -> List[Tuple]:
             if "int" in (kx, ky) and any(t in u + v for t in ("us.", "avoirdupois", "calorie", "Gallon")):
                 continue   # mixed integer/real queries over 52-bit constants take minutes
             tasks.append(("quantity", u, v, {"x": kx, "y": ky}))
+    # a float against a Decimal in the same unit (Python compares the two exactly; code that goes
+    # through float() first rounds the Decimal)
+    for u in ("measured.si.Meter", "(measured.si.Kilo * measured.si.Meter)", "measured.si.Second"):
+        tasks.append(("quantity", u, u, {"x": "float", "y": "dec"}))
+        tasks.append(("quantity", u, u, {"x": "dec", "y": "float"}))
     mpairs = pairs[:4] if tier == "quick" else pairs[:10]
     for u, v in mpairs:
         for shape in ("MM", "MQ", "QM", "AM", "MA", "AQ", "AA"):
